@@ -34,8 +34,9 @@ TIERS = {
                dict(MaxDepth=3, PointIdx={5, 2}, Octants={2, 3, 5, 8}, VecIdx={5})],
         matrix_points=geom.octant_points(geom.SMALL_POINTS[:4])),
     "thorough": dict(
-        paths=[dict(MaxDepth=5, PointIdx={1, 5}, Octants={1, 2, 3, 4, 5, 6, 7, 8}, VecIdx={1}),
-               dict(MaxDepth=4, PointIdx={2, 3, 4, 6, 7, 8, 9, 10, 11, 12}, Octants={1, 4, 6, 7}, VecIdx={2, 3, 4, 5})],
+        paths=[dict(MaxDepth=5, PointIdx={5}, Octants={1, 4, 6, 7}, VecIdx={1}),
+               dict(MaxDepth=4, PointIdx={1, 2, 3, 4, 6, 7, 8, 9, 10, 11, 12}, Octants={2, 7}, VecIdx={5}),
+               dict(MaxDepth=3, PointIdx={1, 2, 3}, Octants={1, 2, 3, 4, 5, 6, 7, 8}, VecIdx={2, 3, 4})],
         matrix_points=geom.octant_points(geom.SMALL_POINTS)),
 }
 INVARIANTS = ["TypeOK", "GeometryInvariant", "OffAxis", "AllPairsOffered"]
@@ -149,7 +150,7 @@ class _Ctx:
     def cmp(self, where, clause, expr, want, label):
         v = compare_exact(expr, Fraction(want))
         if v == "different":
-            self.problems.append((where, clause, f"{label}: real value {expr}, model {want}"))
+            self.problems.append((where, clause, f"{label() if callable(label) else label}: real value {expr}, model {want}"))
         elif v == "numeric-equal":
             self.note("value not reduced to a rational by SymPy (agrees numerically to 40 digits)")
 
@@ -163,13 +164,14 @@ def observe(ctx, where, state, snap, start_coords):
             return
         cart = project_point(want_sys, list(pt.coordinates.values()))
         for i, (c, w) in enumerate(zip(cart, snap["pos"])):
-            ctx.cmp(where, f"{name} position[{i}]", c, w, f"{want_sys} coordinates {list(pt.coordinates.values())} project to")
+            ctx.cmp(where, f"{name} position[{i}]", c, w,
+                    lambda: f"{want_sys} coordinates {list(pt.coordinates.values())} project to")
     cartv = project_vector(V, snap["vsys"], Q)
     if cartv is None:
         ctx.problems.append((where, "vector basis", f"the converted vector is not a combination of the {snap['vsys']} base vectors at its point: {V}"))
     else:
         for i, (c, w) in enumerate(zip(cartv, snap["vec"])):
-            ctx.cmp(where, f"vector component[{i}]", c, w, f"{snap['vsys']} vector {sp.expand(V)} projects to")
+            ctx.cmp(where, f"vector component[{i}]", c, w, lambda: f"{snap['vsys']} vector {sp.expand(V)} projects to")
     # base scalars A -> ... -> A: the identity on the system's domain
     if snap["psys"] == start_coords[0]:
         for i, (got, want) in enumerate(zip(P.coordinates.values(), start_coords[1])):
